@@ -4542,7 +4542,13 @@ impl<'a> Assignment<'a> {
                             ))
                         })?,
                         ArgType::String => DataValue::String(value.to_string()),
-                        _ => unreachable!("argtype should not occur"),
+                        ArgType::Null => DataValue::Null,
+                        _ => {
+                            return Err(StamError::QuerySyntaxError(
+                                format!("Unsupported value in assignment: '{}'", value),
+                                "",
+                            ))
+                        }
                     }
                 };
                 Self::Data { set, key, value }
